@@ -80,14 +80,14 @@ def hx(bs):
 
 class C17(Check):
     pid = "C17"
-    rule = ("keccak on one message of EVERY length 0..300 and of every length within +-3 of every multiple of 136 up to "
-            "1100 (thorough: every length 0..1100 with three contents: zeros, 0xff, random; plus random lengths up to "
-            "20000), plus published vectors; h2s on the digests 0, 1, l-1, l, l+1, 2l, 15l..16l+1, 2^252, 2^255, "
+    rule = ("keccak on one random message of EVERY length 0..1100, additionally all-zero and all-0xff messages of every "
+            "length within +-3 of every multiple of 136 up to 1100 (thorough: three contents for every length 0..1100 "
+            "plus 200 random lengths up to 20000; quick: 6 such), plus published vectors; h2s on the digests 0, 1, l-1, l, l+1, 2l, 15l..16l+1, 2^252, 2^255, "
             "2^256-1 and seeded random 32-byte strings; non-trivial = distinct case line")
     level_note = ("theorems are about the Gallina model Model/Keccak.v (Keccak-f[1600] on 25 lanes is itself the "
                   "reference: only the padding is refined to a bit-level specification); tie to "
                   "src/cryptonote/hash.rs (tiny-keccak, curve25519-dalek reduction) is the correspondence check")
-    evalA_sample = 40
+    evalA_sample = 400   # mostly cheap h2s cases; about 20 of them are keccak cases (30 ms per permutation in the VM)
 
     def gen(self, tier, rng):
         cs = []
@@ -101,16 +101,11 @@ class C17(Check):
         add("keccak -", "kat")
         add("keccak " + b"abc".hex(), "kat")
         add("keccak " + b"The quick brown fox jumps over the lazy dog".hex(), "kat")
-        lens = set(range(0, 301))
-        for k in range(136, 1101, 136):
-            lens.update(range(k - 3, k + 4))
-        lens.add(1100)
-        if tier == "thorough":
-            lens.update(range(0, 1101))
-        for n in sorted(lens):
-            cls = "len-boundary" if (n % 136 in (133, 134, 135, 0, 1, 2, 3)) else "len"
+        for n in range(0, 1101):
+            boundary = n % 136 in (133, 134, 135, 0, 1, 2, 3)
+            cls = "len-boundary" if boundary else "len"
             add("keccak " + hx(rng.getrandbits(8 * n).to_bytes(n, "little") if n else b""), cls)
-            if tier == "thorough":
+            if tier == "thorough" or boundary:
                 add("keccak " + hx(b"\x00" * n), cls + "-zeros")
                 add("keccak " + hx(b"\xff" * n), cls + "-ff")
         for _ in range(6 if tier == "quick" else 200):
@@ -131,7 +126,7 @@ class C17(Check):
                     add("h2s " + v.to_bytes(32, "little").hex(), "h2s-multiple-of-l")
         for i in range(256):
             add("h2s " + (1 << i).to_bytes(32, "little").hex(), "h2s-single-bit")
-        for _ in range(3000 if tier == "quick" else 200000):
+        for _ in range(20000 if tier == "quick" else 300000):
             add("h2s " + rng.getrandbits(256).to_bytes(32, "little").hex(), "h2s-random")
         return cs
 
